@@ -354,6 +354,11 @@ def check(run):
             okk = all(isinstance(v, ast.Constant) and v.value is False and mismatch(guard_atoms(st, stop=lp)) for st, v in inside) and \
                 len(outside) == 1 and isinstance(outside[0][1], ast.Constant) and outside[0][1].value is True and \
                 all(isinstance(x, ast.Break) for x in exits)
+            # the flag is set afresh for every candidate: its True assignment lives in the same (innermost) search loop as the comparison loop
+            if okk and outside[0][0] not in lp.orelse:
+                okk = q.enclosing(outside[0][0], (ast.For, ast.While)) is q.enclosing(lp, (ast.For, ast.While)) and q.strictly_before(fn, outside[0][0], lp)
+                if not okk:
+                    return False, 'flag not reset for each candidate: one mismatching candidate makes every later one fail'
             trues_ = [x for x in q.walk(fn, False) if isinstance(x, ast.Return) and isinstance(x.value, ast.Constant) and x.value.value is True]
             okk = okk and all(('truthy', flag, '') in guard_atoms(x) for x in trues_) and bool(trues_)
             return okk, 'flag cleared on mismatch'
